@@ -238,12 +238,18 @@ def fock_cases(tier, seed):
            "target": "kc"}
     yield {"num": [], "denom": [], "rem": [["f", ["a", "b"], 1], ["X", ["c", "i"], 1], ["f", ["b", "c"], 1]],
            "target": "ai"}
+    # powers of one Fock matrix element (real basis: f^i_j f^j_i is (f^i_j)^2)
+    for exp in (2, 3):
+        yield {"num": [], "denom": [], "rem": [["f", ["i", "j"], exp], ["X", ["j"], 1]], "target": "i"}
+        yield {"num": [], "denom": [], "rem": [["f", ["a", "b"], exp], ["X", ["a", "b", "i"], 1]], "target": "i"}
+        yield {"num": [], "denom": [], "rem": [["f", ["i", "j"], exp], ["f", ["j", "k"], 1], ["X", ["k", "a"], 1]],
+               "target": "ia"}
     for _ in range(40 if tier == "quick" else 500):
         names = rng.sample(OCC, 3) + rng.sample(VIRT, 3)
         f1 = rng.sample(names, 2)
-        rem = [["f", f1, 1], ["X", rng.sample(names, rng.randint(2, 3)), 1]]
+        rem = [["f", f1, rng.choice([1, 1, 1, 2, 3])], ["X", rng.sample(names, rng.randint(2, 3)), 1]]
         if rng.random() < 0.5:
-            rem.append(["f", rng.sample(names, 2), 1])
+            rem.append(["f", rng.sample(names, 2), rng.choice([1, 1, 2])])
         used = sorted({n for _k, nm, _e in rem for n in nm})
         yield {"num": [], "denom": [], "rem": rem,
                "target": "".join(rng.sample(used, rng.randint(0, 2)))}
@@ -282,5 +288,5 @@ CHECKS = {
     "fock.diagonalisation": {
         "function": "adcgen.expr_container:Obj.diagonalize_fock", "cases": fock_cases,
         "check": fock_check,
-        "bound": "products of 1-2 Fock matrix elements with a remainder tensor, 0-2 targets, diagonal Fock model"},
+        "bound": "products of 1-2 Fock matrix elements (exponents 1-3) with a remainder tensor, 0-2 targets, diagonal Fock model"},
 }
